@@ -504,13 +504,21 @@ def scale_typed_bad(ws, total):
     from fractions import Fraction
     from orquestra.quantum.utils import scale_and_discretize
 
-    for arg in (list(ws), tuple(ws)):
+    args = [list(ws), tuple(ws)]
+    if all(abs(w) < 2**53 for w in ws):
+        # the same weights as numpy arrays (float64, and int64 when all are ints) - another kind of Iterable the signature allows
+        args.append(np.array(ws, dtype=float))
+        if all(isinstance(w, int) for w in ws):
+            args.append(np.array(ws, dtype=np.int64))
+    for arg in args:
         snap = list(arg)
         out = scale_and_discretize(arg, total)
         if list(arg) != snap or any(type(a) is not type(b) for a, b in zip(arg, snap)):
             return f"argument changed: {snap} -> {list(arg)}"
+        if isinstance(arg, np.ndarray):
+            out = [int(x) if float(x) == int(x) else x for x in list(out)]  # an array argument may come back as numpy integers
         if not isinstance(out, list) or len(out) != len(ws) or not all(isinstance(x, int) and not isinstance(x, bool) for x in out):
-            return f"result {out!r} is not a list of {len(ws)} ints"
+            return f"result {out!r} for {type(arg).__name__} weights is not a list of {len(ws)} ints"
         if sum(out) != total:
             return f"{out} sums to {sum(out)}, not {total}"
         S = sum(Fraction(w) for w in ws)
@@ -543,6 +551,8 @@ GROUND_DISTS = {
     "halves": {(0,): 0.5, (1,): 0.5},
     "skewed": {(0, 0): 0.001, (0, 1): 0.333, (1, 0): 0.333, (1, 1): 0.333},
     "with-zero": {(0, 0): 0.0, (0, 1): 0.25, (1, 0): 0.75},
+    # outcomes that are tuples of integers beyond one digit (legal keys; two of them collide when written as text: "110")
+    "multi-digit": {(0, 12): 0.25, (1, 10): 0.25, (11, 0): 0.3, (3, 7): 0.2},
     # rounding overshoots by 2 / 3 shots (halves round to even), two / three outcomes hold no shot but may be drawn for elimination
     "overshoot2": {tuple(int(c) for c in format(i, "03b")): w for i, w in enumerate([0.1875] * 5 + [0.03125] * 2)},
     "overshoot3": {tuple(int(c) for c in format(i, "04b")): w for i, w in enumerate([0.15] * 6 + [0.025] * 4)},
@@ -565,8 +575,8 @@ def instances(tier, seed):
     items = []
     for k, total in ([(1, 3), (2, 1), (2, 3), (3, 2), (3, 4)] if tier == "quick" else [(1, 3), (2, 1), (2, 3), (2, 5), (3, 2), (3, 4), (3, 6), (4, 3)]):
         items.append(("scale", {"k": k, "total": total, "label": f"scale {k} weights total {total}"}))
-    for ws in ([3, 1, 2], [1, 1, 1], [5], [2, 2], [7, 1, 1, 1], [0.5, 0.25, 0.25], [0.1, 0.2, 0.3, 0.4], [1, 0.5, 2.5], [10**18, 1, 10**18], [3, 3, 3, 1], [1e-9, 1.0, 2.0], [1, 2, 3, 4, 5, 6, 7]):
-        for total in (1, 2, 7, 10, 100, 1001):
+    for ws in ([3, 1, 2], [1, 1, 1], [5], [2, 2], [7, 1, 1, 1], [1.0, 1.0, 2.0], [1, 1, 2], [4.0], [0.25, 0.25, 0.5], [2, 3, 5], [0.5, 0.25, 0.25], [0.1, 0.2, 0.3, 0.4], [1, 0.5, 2.5], [10**18, 1, 10**18], [3, 3, 3, 1], [1e-9, 1.0, 2.0], [1, 2, 3, 4, 5, 6, 7]):
+        for total in (1, 2, 7, 8, 10, 100, 1001):
             items.append(("scale-typed", {"ws": ws, "total": total, "label": f"scale_and_discretize({ws}, {total})"}))
     reps = [([[0], [1]], 1), ([[0], [1]], 2), ([[0], [1]], 3), ([[0, 0], [0, 1], [1, 1]], 1), ([[0, 0], [0, 1], [1, 1]], 2)]
     for n, m in [(2**60 + 1, 2**59), (2**64 + 3, 2**63), (7, 7), (8, 7), (1, 10**18), (3 * 10**18 + 1, 10**18)]:
